@@ -152,6 +152,7 @@ pub fn class_value(ty: &str, class: &str, c: &Ctx) -> Option<Value> {
         ("ethcall", "invalidop") => json!({"to": c.contract, "data": "0x0a"}),
         ("ethcall", "burnall") => json!({"to": c.contract, "data": "0x06ff06ff06ff06ff06ff06ff06ff06ff06ff06ff06ff06ff06ff06ff06ff06ff"}),
         ("ethcall", "toprecompile1") => json!({"to": "0x0000000000000000000000000000000000000001", "data": "0x01"}),
+        ("ethcall", "bigdatanocode") => json!({"from": c.signer, "to": "0x00000000000000000000000000000000000000aa", "data": format!("0x{}", "ab".repeat(600))}),
         ("ethcall", "fromcontract") => json!({"from": c.contract, "to": c.contract, "data": "0x01050b"}),
         ("ethcall", "toprecompile9") => json!({"to": "0x0000000000000000000000000000000000000009", "data": "0x01"}),
         ("ethcalls", "emptylist") => json!([]),
@@ -201,7 +202,7 @@ pub fn classes(ty: &str) -> Vec<&'static str> {
         "blocktag" => vec!["latest", "pending", "earliest", "hexnum", "decnum", "huge", "overflow", "hash", "word"],
         "bool" => vec!["true", "false", "string"],
         "filter" => vec!["empty", "reversed", "wide", "hugeto", "hugeboth", "topics5", "emptyalt", "badtopic", "badaddr"],
-        "ethcall" => vec!["valid", "nodata", "create", "input", "both", "badhex", "selfdestruct", "invalidop", "burnall", "toprecompile1", "toprecompile9", "fromcontract"],
+        "ethcall" => vec!["valid", "nodata", "create", "input", "both", "badhex", "selfdestruct", "invalidop", "burnall", "toprecompile1", "toprecompile9", "fromcontract", "bigdatanocode"],
         "ethcalls" => vec!["emptylist", "two", "secondfails", "nodata", "many", "fromcontract", "secondfromcontract", "precompilefail", "bigcalldata"],
         "precompile_data" => vec!["valid", "shortids", "badtx", "missingfield"],
         _ => vec![],
